@@ -99,6 +99,14 @@ def oracle_case(c, r):
                 want = s[a] + idx[a] * i[a]
                 if abs(p[a] - want) > 1e-9 * (abs(s[a]) + abs(idx[a] * i[a]) + 1e-300):
                     return 'near-field point %d axis %d is %r, expected %r' % (k, a, p[a], want)
+        # the printed field points, E blocks then H blocks, in the same order (7 digits printed)
+        for blk in (r.get('rep_coord', [])[:N], r.get('rep_coord', [])[N:2 * N]):
+            for k, p in enumerate(blk):
+                idx = (k % n[0], (k // n[0]) % n[1], k // (n[0] * n[1]))
+                for a in range(3):
+                    want = s[a] + idx[a] * i[a]
+                    if abs(p[a] - want) > 1e-6 * abs(want) + 1e-6:
+                        return 'printed near-field point %d axis %d is %r, expected %r' % (k, a, p[a], want)
         return None
     t0, dt, nt, p0, dp, np_ = c['far']
     t0, dt, p0, dp = [float.fromhex(x) for x in (t0, dt, p0, dp)]
@@ -110,6 +118,14 @@ def oracle_case(c, r):
         wz, wa = t0 + (k % nt) * dt, p0 + (k // nt) * dp
         if abs(zen[k] - wz) > 1e-9 * (abs(wz) + 1e-12) or abs(azi[k] - wa) > 1e-9 * (abs(wa) + 1e-12):
             return 'far-field row %d is (%r, %r), expected (%r, %r)' % (k, zen[k], azi[k], wz, wa)
+    # the printed tables: row k names direction k (dB table 7 digits, V/m table two decimals)
+    for name, rows, tol in (('dB', r.get('rep_db', []), 1e-6), ('V/m', r.get('rep_abs', []), 5.1e-3)):
+        if len(rows) != nt * np_:
+            return 'far-field %s table: %d rows printed for %d x %d' % (name, len(rows), nt, np_)
+        for k, row in enumerate(rows):
+            wz, wa = t0 + (k % nt) * dt, p0 + (k // nt) * dp
+            if abs(row[0] - wz) > tol * max(abs(wz), 1) or abs(row[1] - wa) > tol * max(abs(wa), 1):
+                return 'printed far-field %s table row %d is (%r, %r), expected (%r, %r)' % (name, k, row[0], row[1], wz, wa)
     return None
 
 def run(tier, seed):
